@@ -10,6 +10,7 @@ import (
 	"go/token"
 	"go/types"
 	"math/big"
+	"os"
 	"sort"
 	"strings"
 
@@ -162,6 +163,13 @@ func shortPath(p string) string {
 }
 
 func (e *Exec) unsupported(format string, a ...interface{}) {
+	if os.Getenv("VERIF_STACK") != "" {
+		var fs []string
+		for _, f := range e.stack {
+			fs = append(fs, f.fn.String())
+		}
+		fmt.Fprintf(os.Stderr, "UNSUPPORTED %s\n  stack: %s\n", fmt.Sprintf(format, a...), strings.Join(fs, "\n    <- "))
+	}
 	e.stop("unsupported", "%s at %s", fmt.Sprintf(format, a...), e.where())
 }
 
@@ -1489,6 +1497,17 @@ func (e *Exec) runPath(entry *ssa.Function) (res *PathResult) {
 func (e *Exec) callFunction(fn *ssa.Function, args []Value) Value {
 	if e.h.Havoc[fn.String()] || (fn.Pkg != nil && e.h.Havoc[fn.Pkg.Pkg.Name()+"."+fn.Name()]) {
 		return e.havocCall(fn, args)
+	}
+	if e.h.Subst != nil && fn.Pkg != nil {
+		if name, ok := e.h.Subst[fn.Pkg.Pkg.Name()+"."+fn.Name()]; ok && fn.Signature.Recv() == nil {
+			m := e.h.Fn.Pkg.Func(name)
+			if m == nil {
+				e.unsupported("subst target %s not found in the harness package", name)
+			}
+			if m != fn {
+				return e.callFunction(m, args)
+			}
+		}
 	}
 	if intr := e.w.lookupIntrinsic(fn); intr != nil && !e.realCode(fn) {
 		return intr(e, fn, args)
